@@ -9,14 +9,15 @@ import (
 // Tags must be valid identifiers (letters, digits, underscore; cannot start with digit).
 var dollarQuotePattern = regexp.MustCompile(`\$([A-Za-z_][A-Za-z0-9_]*)?\$`)
 
+// dollarQuoteAt is the same pattern anchored at the start of the text it is given.
+var dollarQuoteAt = regexp.MustCompile(`^\$([A-Za-z_][A-Za-z0-9_]*)?\$`)
+
 // stripDollarQuotedStrings replaces the content of dollar-quoted strings with empty
 // strings (preserving the delimiters) so that injection patterns inside string literals
 // don't cause false positives, and injection patterns that use dollar-quoting to evade
 // detection are neutralized.
 func stripDollarQuotedStrings(sql string) string {
-	// Find all potential opening dollar-quote tags
-	matches := dollarQuotePattern.FindAllStringIndex(sql, -1)
-	if len(matches) == 0 {
+	if !strings.Contains(sql, "$") {
 		return sql
 	}
 
@@ -25,25 +26,49 @@ func stripDollarQuotedStrings(sql string) string {
 	pos := 0
 
 	for pos < len(sql) {
-		// Find next dollar-quote opening from current position
-		loc := dollarQuotePattern.FindStringIndex(sql[pos:])
-		if loc == nil {
-			result.WriteString(sql[pos:])
-			break
+		c := sql[pos]
+		// A $ inside an ordinary string literal or a quoted name does not open
+		// a dollar-quoted string: '$$' ... '$$' must not hide what stands
+		// between the two literals.
+		if c == '\'' || c == '"' {
+			end := pos + 1
+			for end < len(sql) {
+				if sql[end] == c {
+					if end+1 < len(sql) && sql[end+1] == c {
+						end += 2 // doubled quote: still inside
+						continue
+					}
+					break
+				}
+				end++
+			}
+			if end >= len(sql) {
+				result.WriteString(sql[pos:]) // unterminated: as-is
+				break
+			}
+			result.WriteString(sql[pos : end+1])
+			pos = end + 1
+			continue
 		}
-
-		// Write everything before this match
-		openStart := pos + loc[0]
+		if c != '$' {
+			result.WriteByte(c)
+			pos++
+			continue
+		}
+		loc := dollarQuoteAt.FindStringIndex(sql[pos:])
+		if loc == nil {
+			result.WriteByte(c)
+			pos++
+			continue
+		}
 		openEnd := pos + loc[1]
-		result.WriteString(sql[pos:openStart])
-
-		openTag := sql[openStart:openEnd]
+		openTag := sql[pos:openEnd]
 
 		// Find the matching closing tag
 		closeIdx := strings.Index(sql[openEnd:], openTag)
 		if closeIdx == -1 {
 			// No closing tag — write the rest as-is (unterminated)
-			result.WriteString(sql[openStart:])
+			result.WriteString(sql[pos:])
 			break
 		}
 
